@@ -15,6 +15,54 @@ CHECKS = {
              "exhaustive only for the small constants in spec/MC_Reader_*.cfg; larger behaviours are covered by "
              "validated traces, not by proof.",
         technique="TLA+ design model + refinement (TLC), trace validation of recorded operation histories against ReaderAbs"),
+    "C01": dict(
+        category="model_checking",
+        text="The reader design model shows the exposed window to be independent of the read schedule for all small streams; "
+             "every generated/mutated input is run through all seven parsers under six schedules (1..3-byte and random "
+             "reads, chunk sizes 1..64, Interrupted, from_buf_reader) and each recorded run is validated against "
+             "ParserContract: items and final outcome incl. error line/column must equal the one-read reference run's.",
+        design_ref="DESIGN.md §3.6, §5 C01",
+        note="At this level the parse function is uninterpreted (made concrete by the reference run of the real code); what "
+             "the items must be is decided by the format grammars under C06/C07. Trusted: TLC, the scheduled source.",
+        technique="TLA+ reader model (TLC) + trace validation of recorded parser runs against ParserContract (schedule independence)"),
+    "C04": dict(
+        category="model_checking",
+        text="The reader model explores every fault offset (error parked, complete, reported exactly once); every input is "
+             "re-run with the source failing after k bytes for every k (sampled above 48/96 offsets), one-shot and with "
+             "random chunking; ParserContract requires the IO error as final result (or the reference's syntax error when "
+             "reached before the failing read), never a clean end, and items identical to the reference's prefix.",
+        design_ref="DESIGN.md §3.6, §5 C04",
+        note="Interrupted is transient by definition; a source returning it forever is outside. The absence of an optional "
+             "header is not counted as an item (see Trace_Contract.tla NonItems).",
+        technique="fault enumeration validated by TLC against the ParserContract specification"),
+    "C05": dict(
+        category="exploration",
+        text="Grammar-generated, mutated and arbitrary inputs through all parsers and literal types (streaming and "
+             "whole-file APIs) in a dev build (overflow checks, debug assertions) and a release build; every call is "
+             "recorded and a panic is a record the specification has no action for; an untraced re-run measures peak "
+             "heap against peak <= 64*consumed + 8*chunk + 1 MiB.",
+        design_ref="DESIGN.md §5 C05, §8",
+        note="Exploration, not proof. Process-level failures (stack overflow, abort, hang) surface as a dead/timed-out driver, "
+             "i.e. a tool error of the check, not as a modelled event.",
+        technique="randomised/mutational exploration with the ParserContract TLA+ trace specification as oracle"),
+    "C08": dict(
+        category="exploration",
+        text="Sentence 1 is a ParserContract step condition evaluated at every give_up and line_at_offset event of every "
+             "recorded run (line = LFs before the line start + 1, position >= line start, column within the line, returned "
+             "location = computed location), over mutated inputs and all chunkings.",
+        design_ref="DESIGN.md §5 C08",
+        note="Binary AIGER: the and-gate section is binary, 0x0A there is data; the line table is the parser's own (DESIGN §7). "
+             "Sentence 2 (corruption catalogue) is decided by the format machines where built.",
+        technique="trace validation of line bookkeeping and error locations against ParserContract"),
+    "C09": dict(
+        category="model_checking",
+        text="Reader clause: ReaderAbs enables a source read only while the pending request is unsatisfied and the source "
+             "has not ended; the design model refines it (TLC) and every recorded read of every history must be such a "
+             "step. Item clause: well-formed documents through a line-at-a-time source; at every returned item the bytes "
+             "delivered may not exceed the end of the line completing it.",
+        design_ref="DESIGN.md §5 C09",
+        note="Line granularity for the item clause (binary AIGER and-gates have no lines; checked against the next LF).",
+        technique="TLA+ refinement (TLC) + trace validation of read discipline and line-at-a-time delivery"),
     "C11": dict(
         category="model_checking",
         text="TLC explores the design model of DeferredWriter (capacity 4, every fill/flush/direct-write path, every sink "
